@@ -486,6 +486,24 @@ package values
 //@ panics nothing
 //@ assigns nothing
 
+// ---- the text a value prints as (C16, C17) ---------------------------------------------
+// printed(v) is fmt.Sprint's text (sprint1) except for floats, where it is what formatFloat
+// makes of them (fprinted: positional notation from one million up - DEFINED by that function,
+// which is therefore not verified against it). Object output, conversion to a string
+// parameter and join all go through values.Sprint, so they agree.
+//@ define printed(v Val) Str = ite(v != nil && isflt(kind(v)), fprinted(v), sprint1(v))
+//@ func values.formatFloat
+//@ unverified
+//@ props C16 C17 C01
+//@ panics nothing
+//@ assigns nothing
+//@ ensures def: result == fprinted(value)
+//@ func values.Sprint
+//@ props C16 C17 C01
+//@ panics nothing
+//@ assigns alloc S$Val
+//@ ensures def: result == printed(value)
+
 //@ func values.Convert
 //@ props C01 C02 C16
 //@ panics nothing
@@ -493,7 +511,7 @@ package values
 //@ assigns alloc S$Val, alloc S$Slc, alloc S$Int, alloc S$Str, alloc S$RV
 //@ ensures value: result1 == nil ==> result0 != nil
 // a number or boolean handed to a string parameter becomes the text it prints as (C16)
-//@ ensures asPrinted: kindof(typ) == reflect.String && values.ToLiquid(value) != nil && (isnum(kind(values.ToLiquid(value))) || kind(values.ToLiquid(value)) == reflect.Bool) && !is(values.ToLiquid(value), fmt.Stringer) ==> result1 == nil && result0 == box(sprint1(values.ToLiquid(value)), string)
+//@ ensures asPrinted: kindof(typ) == reflect.String && values.ToLiquid(value) != nil && (isnum(kind(values.ToLiquid(value))) || kind(values.ToLiquid(value)) == reflect.Bool) && !is(values.ToLiquid(value), fmt.Stringer) ==> result1 == nil && result0 == box(printed(values.ToLiquid(value)), string)
 //@ at call SortedMapKeys #1 before assert mapOrder: kindof(typ) == reflect.Slice
 //@ loop 1 invariant result: rv_valid(result) && !rv_iface(result) && typeof(rv_val(result)) == typ
 //@ loop 2 invariant result: rv_valid(result) && !rv_iface(result) && typeof(rv_val(result)) == typ
